@@ -67,6 +67,7 @@ func importLocalFile(
 	importPath, sourceDir string,
 ) (rel.Expr, error) {
 	importPath = strings.Trim(importPath, " \t\n")
+	boundary := sourceDir
 	if fromRoot {
 		rootPath, err := findRootFromModule(ctx, sourceDir)
 		if err != nil {
@@ -75,8 +76,18 @@ func importLocalFile(
 		if err = addModuleSentinel(ctx, rootPath); err != nil {
 			return nil, &localImportError{err: err, scanner: scanner}
 		}
-		if !strings.HasPrefix(importPath, "/") {
-			importPath = rootPath + "/" + strings.ReplaceAll(importPath, "../", "")
+		// A rooted import is relative to the module root whatever it looks like
+		// once blanks are trimmed ("/ /etc/x" must not become the absolute /etc/x).
+		importPath = filepath.Join(rootPath, strings.ReplaceAll(importPath, "../", ""))
+		boundary = rootPath
+	}
+	// The file must be below the module root (or the importing script's
+	// directory): not above it, and not the directory itself, to whose name
+	// fileValue would append ".arrai".
+	if r, err := filepath.Rel(boundary, importPath); err != nil || r == "." || r == ".." || strings.HasPrefix(r, "../") {
+		return nil, &localImportError{
+			err:     fmt.Errorf("import path can not be pointing outside of the script's module directory: %s", importPath),
+			scanner: scanner,
 		}
 	}
 
